@@ -66,6 +66,24 @@ func c10Eval(c c10Case) (ok bool, sig, detail string) {
 		if string(out.Bytes()) != string(res) {
 			return false, "residues", fmt.Sprintf("residues %q want %q", out.Bytes(), res)
 		}
+		// non-initial state: the host is itself the result of Concat (whose residue slice keeps the room that
+		// append left), then insert;delete - the residues must come back all the same
+		{
+			var out2 gts.Sequence
+			if p, msg := engine.Safely(func() {
+				op := "insert"
+				if c.Op == "embed-delete" {
+					op = "embed"
+				}
+				host := gts.Concat(gts.New(nil, nil, nil), mkSeqKeys(res, locs, keys))
+				out2 = gts.Delete(applyInsertOp(op, host, c.I, mkSeq(guestSeq(c.N), nil, "g")), c.I, c.N)
+			}); p {
+				return false, "panic", "panic (host produced by Concat): " + msg
+			}
+			if string(out2.Bytes()) != string(res) {
+				return false, "residues-concat-host", fmt.Sprintf("host produced by Concat(empty, host), %s at i=%d n=%d: residues %q want %q", c.Op, c.I, c.N, out2.Bytes(), res)
+			}
+		}
 		for k, loc := range locs {
 			f, cnt := findOnce(out.Features(), keys[k])
 			if cnt != 1 {
